@@ -90,3 +90,6 @@ package main
 //@ property C01: mainImplementation
 //@ property C18: mainImplementation
 //@ property C06: mainImplementation
+// every collected reference -- traversed or not -- is handed to the scan, which is
+// where it is tallied (C07)
+//@ property C07: mainImplementation
